@@ -351,6 +351,7 @@ func runC20(c *core.Ctx) {
 	}
 	scenarios := c20Scenarios(c.Thorough())
 	completed := true
+	mem := memTrackOn(c)
 	var maxSched int64
 	for si0 := 0; si0 < 2*len(scenarios); si0++ {
 		si, reflectE := si0/2, si0%2 == 1
@@ -425,6 +426,9 @@ func runC20(c *core.Ctx) {
 				return map[string]interface{}{"scenario": sc.Name, "schedule": res.Schedule, "choices": ch.Trace, "calls": rs, "diff": msg, "preemptions": res.Preemptions}
 			}
 			attrs := func(what string) map[string]string { return map[string]string{"what": what} }
+			if mem {
+				reportRaces(c, res, map[string]string{}, func() map[string]interface{} { return detail("data race") })
+			}
 			if len(res.Panics) > 0 {
 				for _, p := range res.Panics {
 					if strings.HasPrefix(p, "ENGINE: ") {
